@@ -62,6 +62,12 @@ class FitOutputManager:
         self.nb_of_patients_to_plot = outputs.nb_of_patients_to_plot
         self.periodicity_plot_patients = outputs.plot_patient_periodicity
         self.plot_sourcewise = outputs.plot_sourcewise
+        # no folder at all when only console printing was requested
+        self.path_output = None
+        self.path_plot = None
+        self.path_plot_patients = None
+        self.path_save_model_parameters_convergence = None
+        self.path_plot_convergence_model_parameters = None
         if outputs.root_path is not None:
             self.path_output = Path(outputs.root_path)
             self.path_plot = Path(outputs.plot_path)
